@@ -170,7 +170,7 @@ Section Hist.
                 | Rejected m' => ((m', st), HRejected)
                 end
     | HRun => match run run_tbl m p n with
-              | RunOk m' tr => ((m', st), HRan tr (m_rdm m || has_kind Val p) st)
+              | RunOk m' tr => ((m', st), HRan tr (has_kind Val p) st)
               | RunError m' _ => ((m', st), HFailed)
               end
     end.
